@@ -38,6 +38,18 @@ Find something of a DIFFERENT kind. Directions that tend to be under-tested:
 - degenerate but legal shapes: empty collections where a non-empty one is usual, a function that is identically zero after cancellation, a constraint/objective using no variable, a single-element case of a "list of many".
 The change must still be a plausible developer slip / refactoring / optimisation that a reviewer could wave through (no `if input == magic`). Your demonstration test must construct the trigger deterministically and show the property's statement being violated.
 '''
+HARD4 = '''
+## HARD MODE, ROUND 4 (read carefully)
+Three rounds of seeded changes have been collected and the oracle under evaluation — a runtime monitor that drives the public API with hundreds of thousands of generated inputs and histories per property and compares with an independent exact (rational-arithmetic) model — now catches all of them. It judges results bit-exactly where the arithmetic is exact and within a rigorous rounding bound otherwise. Already covered (do NOT repeat): size thresholds (16/32/64 elements, 32 KiB buffers); ids or endpoints beyond 2^32, 2^53, 2^63; adjacent doubles, exact ties, infinite objectives; coefficients below f64::EPSILON; values exactly on a bound or on a tolerance; stored order of terms / variables / constraints; repeated ids; absent optional fields, NaN bounds, empty instances, constant constraints; relax/restore and penalty/instantiate histories; states that echo fixed variables; secondary clauses (error paths "change nothing", tags, error context paths); alternative entry points (+=, *=, Sum, Product, From, load_file_bytes, evaluate_samples); file names; duplicated layers; setters called twice.
+Find a defect of yet ANOTHER kind. Directions still open:
+- SMALL NUMERIC DAMAGE that is real but easy to overlook: a tolerance or threshold constant changed by a factor (1e-6 vs 1e-5, EPSILON vs 2*EPSILON, <= vs <), an intermediate computed in f32 or through an integer cast, a premature rounding (round/floor/ceil/trunc confused for negative numbers), a sum that skips compensation only for many terms, loss of the sign of zero where it matters, an `abs()` or `max()` applied one step too early;
+- INTEGER ARITHMETIC on ids and counts: `id + 1` overflowing at u64::MAX, `as i64` / `as u32` / `as usize` casts of ids, subscripts or counts that change large values, signed/unsigned confusion, off-by-one at 0;
+- INTERACTION BETWEEN TWO OBJECTS of the same call: aliasing between the id of a variable and the id of a constraint or parameter, the same variable appearing in the objective and in a dependency, two constraints sharing a function, a replacement map that is the identity;
+- PARTIAL UPDATE: a multi-step mutation that is correct when it succeeds but leaves a half-updated object when a LATER step fails (error after the first push/remove), or that updates one of two mirrored fields only;
+- DEFAULTS: the proto3 default of an enum or number being treated as "set" or as "unset" in the wrong place (sense 0, kind 0, equality 0, a coefficient 0.0, id 0, an empty string name);
+- TEXT FORMATS (parsers/writers only): tokens separated by several blanks or tabs, a sign or exponent form of a number (+1, 1., .5, 1e+3, 1D3), a trailing comment, upper/lower case of a keyword, Windows line ends, a final line without newline, negative zero in a file.
+The change must still be a plausible developer slip / refactoring / optimisation that a reviewer could wave through (no `if input == magic`). Your demonstration test must construct the trigger deterministically and show the property's statement being violated.
+'''
 os.makedirs('/tmp/seedwork', exist_ok=True)
 BENIGN = """You are a careful Rust engineer helping to evaluate a test oracle for FALSE ALARMS. The oracle is a runtime monitor that drives the public API of the OMMX Rust SDK with many generated inputs and checks ONE stated semantic property. A good oracle must stay silent on any code change that keeps the property true. Your job: produce realistic BEHAVIOUR-PRESERVING CHANGES ("benign refactorings") of the code the property is anchored in — changes after which the property STILL HOLDS for every input, but which alter as much as possible of what the property does NOT promise.
 
@@ -98,7 +110,7 @@ for pid, p in props.items():
         continue
     text = json.dumps({k: p[k] for k in ['id', 'title', 'statement', 'quantifier', 'why_tests_cant', 'anchors']}, indent=1)
     wt, out, demo = f'/tmp/seed{R}-{pid}', f'/tmp/seed{R}-{pid}-out', f'seeded_demo{R}_{pid.lower()}'
-    hard = {1: '', 2: HARD2, 3: HARD3}[rnd]
+    hard = {1: '', 2: HARD2, 3: HARD3, 4: HARD4}[rnd]
     prompt = f'''You are a careful Rust engineer helping to evaluate how well a test oracle detects regressions. Your job: produce realistic BREAKING CHANGES ("seeded defects") to the OMMX Rust SDK that violate ONE stated semantic property while still compiling and passing the project's existing test suite.
 
 ## Your workspace
